@@ -3,7 +3,7 @@ import collections
 import math
 
 PROP = "C17"
-LEAN_MODS = ["Cte.Props.C17", "Cte.Props.C17Occ"]
+LEAN_MODS = ["Cte.Props.C17", "Cte.Props.C17Occ", "Cte.Props.C17Conv"]
 HARNESS = "c17"
 N = {"quick": 200, "thorough": 4000}
 CORRESPONDENCES = ["expansion of every yearly schedule to daily-schedule ids (get_year_as_day_sch) and number of hourly values",
